@@ -88,6 +88,14 @@ int main(int argc, char ** argv) {
         for (size_t si = 0; !bad && si < p.steps.size(); si++) {
             const PStep & s = p.steps[si];
             const std::string & t = s.act.at(0);
+            if (t == "spur") {
+                int w = s.act.at(1) == "P" ? 0 : 1;
+                vsched::spurious_wake(w);
+                st.steps++;
+                got = project(*f);
+                if (got != s.expect) { st.mismatch(pi, si, join_words(s.act), s.expect, got); bad = true; }
+                continue;
+            }
             int tid = t == "P" ? 0 : t == "C" ? 1 : 2;
             if (!vsched::runnable(tid)) {
                 st.mismatch(pi, si, join_words(s.act), "\"thread runnable\"", project(*f));
